@@ -9,5 +9,63 @@ THEOREMS = ["C08_gate_fail_closed", "C08_alteration_exact", "C08_no_alteration_p
 LINK_NOTE = "Modulator-link stage: the real S2M/M2S dispatchers (crates/modulator/src/conn.rs) behind the real connection engine are fed raw byte chunks (handshakes with right/wrong/missing secret and version, the whole three-link vocabulary in each phase, payloads, scripted modulator outcomes) and compared chunk by chunk with Model/Link.v inside coqc (Conf/LinkConf.link_conf); the real S2mClient (crates/modulator/src/client.rs) is run against a scripted wire peer (sensible, contradictory, mis-correlated, malformed, missing replies, dropped links) and each call's result is compared with Model/Link.v's reply mapping (Conf/LinkConf.client_conf); a share of the server histories runs with the real S2M/M2S wire path between server and modulator (unix sockets), including histories in which the modulator process goes away (listener gone, links ended): every delegated decision must fail closed."
 
 
+def pipelined_stage(thorough, violations, stats):
+    """two BROADCASTs pipelined on ONE connection while the modulator's verdict for the first is still pending: the second
+    must be validated as well (refused when the modulator says invalid, delivered with the modulator's bytes when it alters
+    the payload) — each request consults the modulator, whatever else that connection has in flight"""
+    from common import Rng, seed
+    r = Rng(seed() + 59)
+    cases = []
+    for i in range(24 if thorough else 8):
+        mod = r.choice([m for m in sl.MOD_CONFIGS if m and "fwd-broadcast-payload" in m["ops"] and "auth" not in m["ops"]])
+        cfg = sl.base_cfg(r, mod)
+        cfg.update({"max_clients": 10, "max_subs": 10, "max_conns": 16, "max_channels": 100, "max_inflight": 10, "max_payload": 1024})
+        g = sl.Gen(r, cfg)
+        ks = sl._login(g, ["alice", "bob"])
+        ch = "!c1@localhost"
+        for u in ("alice", "bob"):
+            g.send(ks[u], sl.frame("JOIN", [("id", g.rid()), ("channel", ch)]), [])
+        first, second = b"first-" + bytes([65 + i]), b"second-" + bytes([65 + i])
+        v2 = r.choice(["invalid", "invalid", {"altered": (b"ALTERED-" + bytes([65 + i])).hex()}, "err"])
+        id1, id2 = g.rid(), g.rid()
+        g.ops.append({"t": "send", "k": ks["alice"], "bytes": sl.frame("BROADCAST", [("id", id1), ("channel", ch), ("length", len(first)), ("qos", 1)], first).hex(), "script": [{"park": 1}]})
+        g.ops.append({"t": "send", "k": ks["alice"], "bytes": sl.frame("BROADCAST", [("id", id2), ("channel", ch), ("length", len(second)), ("qos", 1)], second).hex(), "script": [v2]})
+        v1 = r.choice(["ok", "ok", "invalid"])
+        g.ops.append({"t": "release", "id": 1, "outcome": v1})
+        g.ops.append({"t": "advance", "ms": 20})
+        cases.append({"cfg": cfg, "ops": g.ops, "nomodel": True, "pipe": {"bob": ks["bob"], "alice": ks["alice"], "first": first.hex(), "second": second.hex(), "v1": v1, "v2": v2, "id1": id1, "id2": id2}})
+    obs, out = sl.run_histories(cases, "debug", tag="c08pipe", timeout=600)
+    if obs is None:
+        violations.append((PROP, "pipelined-validation histories crashed or hung: " + out[-300:], cases[0], 0))
+        return
+    stats["pipelined_validation_histories"] = len(cases)
+    for c, ob in zip(cases, obs):
+        if "ops" not in ob:
+            violations.append((PROP, "pipelined-validation history could not run: " + str(ob)[:200], c, 0))
+            continue
+        p = c["pipe"]
+        got, acks, errs = [], set(), set()
+        for t, o in enumerate(ob["ops"]):
+            for f in o["conns"].get(str(p["bob"]), {"frames": []})["frames"]:
+                if "undecodable" not in f and sl.frame_name(f) == "MESSAGE":
+                    got.append(f["payload"])
+            for f in o["conns"].get(str(p["alice"]), {"frames": []})["frames"]:
+                if "undecodable" in f:
+                    continue
+                if sl.frame_name(f) == "BROADCAST_ACK":
+                    acks.add(sl.frame_get(f, "id"))
+                if sl.frame_name(f) == "ERROR" and sl.frame_get(f, "id") is not None:
+                    errs.add(sl.frame_get(f, "id"))
+        want2 = None if p["v2"] in ("invalid", "err") else p["v2"]["altered"]
+        if p["second"] in got:
+            violations.append((PROP, f"the second of two pipelined broadcasts was delivered as sent although the modulator's verdict for it was {p['v2'] if isinstance(p['v2'], str) else 'an alteration'} (the first was still being validated)", c, 0))
+        elif want2 is None and p["id2"] in acks:
+            violations.append((PROP, "the second of two pipelined broadcasts was acknowledged although the modulator refused it", c, 0))
+        elif want2 is not None and want2 not in got:
+            violations.append((PROP, "the altered payload of the second pipelined broadcast was not delivered", c, 0))
+        if p["v1"] == "invalid" and p["first"] in got:
+            violations.append((PROP, "the first broadcast was delivered although the modulator refused it", c, 0))
+
+
 def run(tier, replay=None):
-    return srvprops.run(PROP, THEOREMS, tier, replay, extra_gen=sl.outage_histories, link=("link", "client"), rule_note=LINK_NOTE)
+    return srvprops.run(PROP, THEOREMS, tier, replay, extra_gen=sl.outage_histories, link=("link", "client"), extra_stage=pipelined_stage, rule_note=LINK_NOTE + " Pipelined stage: two BROADCASTs on one connection while the first verdict is pending: the second is validated as well.")
